@@ -29,7 +29,8 @@ def main():
     run_all = "--all" in sys.argv
     patch = os.path.join(src, "patch.diff")
     meta = json.load(open(os.path.join(src, "meta.json")))
-    demo_cmd = open(os.path.join(src, "demo_cmd.txt")).read().strip()
+    # the file may hold several commands and comments: it fails as soon as one command fails
+    demo_cmd = "set -e\n" + open(os.path.join(src, "demo_cmd.txt")).read().strip()
     report = {"property": pid, "author_meta": meta, "ran": []}
 
     # 1. scratch worktree
@@ -56,6 +57,8 @@ def main():
             os.makedirs(os.path.dirname(os.path.join(wt, f)) or wt, exist_ok=True)
             shutil.copy(os.path.join(author_wt, f), os.path.join(wt, f))
         report["demo_files"] = demo_files
+        # helper scripts the demo command may refer to live in the author's out/ directory
+        shutil.copytree(src, os.path.join(wt, "out"), dirs_exist_ok=True)
         rc1, out1 = sh(demo_cmd, wt)
         report["demo_fails_with_patch"] = rc1 != 0
         report["demo_with_patch_tail"] = out1[-300:]
